@@ -6,13 +6,15 @@ from harness.common import struct_hash
 from harness.ns import QNAMES
 
 ID = "C03"
-LEAN_MODULES = ["Pypika.Props.C03"]
+LEAN_MODULES = ["Pypika.Props.C03", "Pypika.WholeStr"]
 THEOREMS = [
     "Pypika.C03.decode_encode",
     "Pypika.C03.lex_literal",
     "Pypika.C03.str_piece_roundtrip",
     "Pypika.C03.val_one_piece",
-]
+,
+            "Pypika.WholeStr.str_uniform_all", "Pypika.WholeStr.str_quote_uniform", "Pypika.WholeStr.str_quote_uniform_query",
+            "Pypika.WholeStr.toplevel_sq"]
 AGREE = ["Pypika.Agree.secondary_quote", "Pypika.Agree.class_quotes"]
 TRUSTED = [
     "Spec: ANSI string-literal rule (a literal ends at the first quote not followed by a quote; '' denotes ') for every dialect; "
